@@ -239,6 +239,30 @@ func crossProducts() []struct{ q, vars string } {
 		add("{"+comp+"{... on Color{i}}}", `{}`)
 		add("{"+comp+"{... on In{a}}}", `{}`)
 	}
+	// rule 5.3.2 (fields in a set can merge): two fields of the SAME shape under one response key,
+	// selecting the same field or different fields, written in selection sets whose parent types
+	// are the same type, an interface and an object type, or two different object types (the only
+	// case in which different fields may share a key); directly, through fragments, and one
+	// level down (the merged sub-selections)
+	for _, pair := range [][2]string{{"i", "i"}, {"i", "err"}, {"i", "arg"}, {"arg(x:1)", "arg(x:1)"}, {"s", "wStr"}, {"li", "wList"}} {
+		a, b := "k:"+pair[0], "k:"+pair[1]
+		add("{"+a+" "+b+"}", `{}`)
+		add("{o{"+a+"} o{"+b+"}}", `{}`)
+		add("{o{o{"+a+"}} o{o{"+b+"}}}", `{}`)
+		add("{...A ...B} fragment A on Query{"+a+"} fragment B on Query{"+b+"}", `{}`)
+		add("{o{...A} o{... on Obj{"+b+"}}} fragment A on Obj{"+a+"}", `{}`)
+		add("{uni{... on Obj{"+a+"} ... on Obj{"+b+"}}}", `{}`)
+		add("{iface{... on Obj{"+a+"} ... on Iface{"+b+"}}}", `{}`)
+	}
+	for _, q := range []string{
+		"{iface{k:i ... on Obj{k:err}}}", "{iface{k:i ... on Obj{k:i}}}", "{iface{... on Obj{k:err} k:i}}",
+		"{uni{... on Obj{k:i} ... on Obj2{k:i}}}", "{uni{... on Obj{k:err} ... on Obj2{k:i}}}", "{uni{... on Obj2{k:i} ... on Obj{k:err}}}",
+		"{wUni{... on Obj{k:err} ... on Obj2{k:i}}}", "{iface{... on Obj{k:err} ... on Obj2{k:i}}}", "{wIface{... on Obj{k:nn} ... on Obj2{k:i}}}",
+		"{uni{... on Obj{k:o{i}} ... on Obj{k:wObj{i}}}}", "{k:o{i} k:wObj{i}}", "{k:o{i} k:o{s}}", "{k:o{x:i} k:o{x:err}}", "{k:o{x:i} k:wObj{x:err}}",
+		"{uni{... on Obj{k:o{x:i}} ... on Obj2{k:i}}}", "{o{k:iface{i}} o{k:wIface{i}}}", "{o{k:iface{x:i}} o{k:iface{... on Obj{x:err}}}}",
+	} {
+		add(q, `{}`)
+	}
 	// fragment cycles, unknown things, duplicates
 	add(`{...A} fragment A on Query{...B} fragment B on Query{...A}`, `{}`)
 	add(`{...A} fragment A on Query{...A}`, `{}`)
@@ -946,7 +970,7 @@ func main() {
 		}
 		// 7. the composed stream: requests inside the common envelope of the stage models, on which
 		// the composed model (Pipe/Compose.v) is run from the bytes and compared
-		nc := 1500
+		nc := 1800
 		if h.Thorough() {
 			nc = 60000
 		}
